@@ -185,4 +185,20 @@ CHECKS = {
         "assumptions": ["a crash is modelled as abandoning the reconcile at the call, building a new controller and refilling its caches",
                         "timeouts are the only 'applied but reported as failed' kind"] + COMMON_ASSUMPTIONS,
     },
+    "C16": {
+        "level": "exploration",
+        "rule": "case = 1-3 cached sets (A; optionally B with the same or another selector; optionally one with an empty selector) and a sequence of <= 20 "
+                "events delivered through the very handlers the real constructor registered on the informers: pod add / update(old,cur) / delete / "
+                "delete-by-tombstone / tombstone holding a non-pod, over pods whose owner is none, A, A with a stale UID, another kind named like A, B "
+                "or an unknown set, labels matching A, B, neither or nil, equal or different resource versions, with or without a deletion timestamp; "
+                "set add / update (annotation-only change) / delete / tombstone; and runs of real worker steps with drawn success/failure. Oracle "
+                "after each event: the drained queue keys lie between REQ and ALLOW of a reference model of the statement (owner resolved by kind + "
+                "name + UID; owner change => old and new owner; orphan => every matching set; unrelated => nothing; any set event => that set); a "
+                "failing worker step bumps the requeue counter by exactly one and the key comes back, a succeeding one resets it to 0. Non-trivial = "
+                "a required enqueue with a distractor set present, an owner change, or a tombstone; distinct = distinct case",
+        "legs": [{"test": "TestC16", "quick": {"checks": 2400, "shards": 8}, "thorough": {"checks": 96000, "shards": 16}}],
+        "floors": {"owner-change-event": 0.2, "tombstone-event": 0.2, "worker-steps": 0.2},
+        "assumptions": ["sets with an invalid selector are not placed in the cache (the lister aborts matching on them: outside this statement, see DESIGN)",
+                        "real time is used only to wait for client-go's delayed re-add (backoff 5ms..; 10s deadline), never as an oracle by itself"] + COMMON_ASSUMPTIONS,
+    },
 }
